@@ -136,7 +136,7 @@ func (h *Handler) handleOptions(w http.ResponseWriter, r *http.Request) error {
 
 func (h *Handler) handlePropfind(w http.ResponseWriter, r *http.Request) error {
 	var propfind PropFind
-	if isContentXML(r.Header) {
+	if isContentXML(r.Header) && !IsRequestBodyEmpty(r) {
 		if err := DecodeXMLRequest(r, &propfind); err != nil {
 			return err
 		}
